@@ -3,9 +3,10 @@
 # Runs the check of the property a seeded change breaks against a SCRATCH worktree of /repo HEAD with the
 # change applied (so that work in /repo is not disturbed).  Prints the check's verdict lines.
 set -u
-id="$1"; tier="${2:-quick}"
+id="$1"; tier="${2:-quick}"; propov="${3:-}"
 d=/verif/seeded/$id
 prop=$(python3 -c "import json;print(json.load(open('$d/meta.json'))['property'])")
+[ -n "$propov" ] && prop=$propov
 wt=/tmp/seedrun-$id
 git -C /repo worktree remove --force "$wt" >/dev/null 2>&1
 git -C /repo worktree add -q "$wt" HEAD || exit 2
